@@ -61,9 +61,12 @@ def run_check(tier, seed, replay=None):
         hashes.append({(x["fn"], x["x"]): x["hash"] for x in evs if x["e"] in ("Fresh", "Seq")})
         for x in rej:
             ev = x["event"]
-            how = {"Seq": "on the main thread after other calls", "End": "in a history thread after other calls" if ev.get("round") == -2
-                   else "beside other calls"}.get(ev.get("e"), "")
-            c.violation("conc:%s:%s" % (ev.get("fn"), "history" if ev.get("round") == -2 or ev.get("e") == "Seq" else "concurrent"),
+            rd = ev.get("round")
+            how = "on the main thread after other calls" if ev.get("e") == "Seq" else \
+                  {-2: "in a history thread after other calls", -3: "on the same bytes at another address modulo 8",
+                   -4: "beside threads whose calls are all rejected"}.get(rd, "beside other calls")
+            kind = "history" if rd == -2 or ev.get("e") == "Seq" else "alignment" if rd == -3 else "concurrent"
+            c.violation("conc:%s:%s" % (ev.get("fn"), kind),
                         "a call %s returned a result different from the same call on a thread of its own: %s" % (how, json.dumps(ev)),
                         {"kind": "conc", "seed": seed, "event": ev})
         if proc == 0:
@@ -76,7 +79,8 @@ def run_check(tier, seed, replay=None):
     return c.finish(rule="evaluations = calls of expand / recreate / decompress / recompress / compress_zstd / decompress_zstd: "
                          "a reference per (function, input) computed on a thread of its own; the same calls one after the "
                          "other on the main thread; three long-lived threads running every call twice in orders of their "
-                         "own (inputs include a file over 4 MiB and streams of one text under four window sizes); then 16 "
+                         "own (inputs include a file over 4 MiB and streams of one text under four window sizes); the same bytes at "
+                         "every address modulo 8; files expanded beside threads that do nothing but get garbage rejected; then 16 "
                          "threads released together by a barrier (same call; same function on distinct inputs; random "
                          "mixes); every result compared with the reference by Trace_Conc; a second process must "
                          "reproduce the reference hashes; non-trivial = distinct (function, input)")
